@@ -220,6 +220,7 @@ def run(case, ctx):
     bootm = importlib.import_module("rig.machine_control.boot")
     mcm = importlib.import_module("rig.machine_control.machine_controller")
     sc = importlib.import_module("rig.machine_control.scp_connection")
+    consts = importlib.import_module("rig.machine_control.consts")
     tmp = tempfile.mkdtemp(prefix="rv-c20-")
     nt = False
     had_options = False
@@ -309,8 +310,20 @@ def run(case, ctx):
                     kw2 = dict(kwargs)
                     if dct is not None:
                         kw2["sv_overrides"] = dct
-                    structs = bootm.boot("board-%d" % bi, scamp_binary=path,
-                                         boot_delay=b["delay"], **kw2)
+                    if (bi + len(case["boots"]) + b["size"]) % 3 == 0:
+                        # every documented parameter given by position, in
+                        # the documented order
+                        ctx.hit("boot_arguments_by_position")
+                        where["positional"] = True
+                        pos = [kw2.pop("boot_port", consts.BOOT_PORT), path,
+                               kw2.pop("sark_struct", None), b["delay"],
+                               kw2.pop("post_boot_delay", 2.0),
+                               kw2.pop("sv_overrides", {})]
+                        structs = bootm.boot("board-%d" % bi, *pos, **kw2)
+                    else:
+                        structs = bootm.boot("board-%d" % bi,
+                                             scamp_binary=path,
+                                             boot_delay=b["delay"], **kw2)
             except Violation:
                 raise
             except Exception as e:
